@@ -1,5 +1,10 @@
 import GeoVerif.Model.MGRS
 import GeoVerif.Proofs.Digits
+import Mathlib.Tactic.SplitIfs
+import GeoVerif.Props.C04
+import GeoVerif.Proofs.F64Div
+import Mathlib.Tactic.Linarith
+import Mathlib.Tactic.NormNum
 /-!
 # C05 — property theorems (MGRS)
 
@@ -320,7 +325,7 @@ theorem reverse_forward_utm (zone : Int) (hz : 1 ≤ zone ∧ zone ≤ 60) (nort
   · have : 5 + prec = prec + 5 := by omega
     rw [this]
     simp only [List.drop_succ_cons]
-    rw [List.drop_left' lx, List.take_of_length_le (by rw [ly]; exact Nat.le_refl _),
+    rw [List.drop_left' lx, List.take_of_length_le (Nat.le_of_eq ly),
       readNum_digitsW digits 10 (by decide) digits_table_ok, Nat.mod_eq_of_lt hdyN]
   · have b1 : ((dx.toNat : Nat) : Int) = dx := Int.toNat_of_nonneg hdx0
     have b2 : ((dy.toNat : Nat) : Int) = dy := Int.toNat_of_nonneg hdy0
@@ -363,9 +368,11 @@ theorem decode_ups (s : List Nat) (cp : Bool) (kb kc kr prec ex ny : Nat)
     intro h
     rw [hlen] at hinv
     simp [List.map_take, h] at hinv
+  have hrow' := hrow
+  simp only [ge_iff_le, Nat.ofNat_le_cast] at hrow'
   unfold decodeInt
   simp only [hds, hlen, List.length_nil, List.foldl_nil]
-  simp [zUPS, hinv', l1, l2, l3, l6, hband, hcol, hrow, heast, hnorth, hk]
+  simp [zUPS, hinv', l1, l2, l3, l6, hband, hcol, hrow, hrow', heast, hnorth, hk]
   cases cp <;> rfl
 
 /-- the UPS string written by `MGRS::Forward` (integer level) -/
@@ -490,7 +497,7 @@ theorem reverse_forward_ups (northp : Bool) (ix iy : Int) (hix : 0 ≤ ix) (hiy 
     · have : 3 + prec = prec + 3 := by omega
       rw [this]
       simp only [List.drop_succ_cons]
-      rw [List.drop_left' lx, List.take_of_length_le (by rw [ly]; exact Nat.le_refl _),
+      rw [List.drop_left' lx, List.take_of_length_le (Nat.le_of_eq ly),
         readNum_digitsW digits 10 (by decide) digits_table_ok, Nat.mod_eq_of_lt hdyN]
     · have c1 : (((xh - cx).toNat : Nat) : Int) = xh - cx := Int.toNat_of_nonneg hx0
       have c2 : (((yh - cy).toNat : Nat) : Int) = yh - cy := Int.toNat_of_nonneg hy0
@@ -543,5 +550,663 @@ theorem malformed_rejected :
 /-- non-vacuity: a well-formed string decodes -/
 example : (match decodeInt (toBytes "38SMB4484".toList) false with
     | .ok (.cell d) => decide (d = ⟨38, true, 444, 3684, 100, 2⟩) | _ => false) = true := by decide
+
+/-! ### the letter tables have the documented contents -/
+
+/-- the alphabet without I and O, and the UPS column alphabet: additionally without D, E, M, N, V, W -/
+def A24 : List Char := "ABCDEFGHJKLMNPQRSTUVWXYZ".toList
+def U18 : List Char := "ABCFGHJKLPQRSTUXYZ".toList
+
+theorem letter_tables_documented :
+    A24 = ("ABCDEFGHIJKLMNOPQRSTUVWXYZ".toList.filter fun c => c ≠ 'I' ∧ c ≠ 'O') ∧
+    U18 = (A24.filter fun c => c ∉ "DEMNVW".toList) ∧
+    utmcols = [A24.take 8, (A24.drop 8).take 8, A24.drop 16] ∧
+    utmrow = A24.take 20 ∧
+    latband = (A24.drop 2).take 20 ∧
+    upsband = ['A', 'B', 'Y', 'Z'] ∧
+    upscols = [U18.drop 6, U18.take 12, U18.drop 11, U18.take 7] ∧
+    upsrows = [A24, A24.take 14] ∧
+    hemispheres = ['S', 'N'] ∧
+    digits = "0123456789".toList ∧
+    alpha = A24 ++ A24.map Char.toLower := by decide
+
+theorem scale_constants_documented :
+    mgrs_base = 10 ∧ mgrs_tilelevel = 5 ∧ mgrs_tile = mgrs_base ^ mgrs_tilelevel.toNat ∧ mgrs_maxprec = mgrs_tilelevel + 6 ∧
+    mgrs_mult * mgrs_tile = mgrs_base ^ mgrs_maxprec.toNat ∧ mgrs_utmrowperiod = 20 ∧ mgrs_utmevenrowshift = 5 ∧
+    mgrs_maxutmSrow = 5 * mgrs_utmrowperiod := by decide
+
+
+/-! ### `MGRS::Decode` splits exactly as the documented grammar says -/
+
+/-- a digit is not a letter, a letter is not a digit, and neither "INV" nor a NUL byte can start a well-formed reference -/
+theorem digit_not_alpha (c : Nat) (h : inSet digits c = true) : inSet alpha c = false := by
+  have hm : c ∈ digits.map Char.toNat := by
+    unfold inSet at h
+    rw [List.any_eq_true] at h
+    obtain ⟨ch, hch, he⟩ := h
+    rw [List.mem_map]; exact ⟨ch, hch, by simpa using he⟩
+  have : ∀ c ∈ digits.map Char.toNat, inSet alpha c = false := by decide
+  exact this c hm
+
+theorem takeWhile_all {α} (p : α → Bool) (l : List α) : (l.takeWhile p).all p = true := by
+  induction l with
+  | nil => rfl
+  | cons a t ih => by_cases h : p a = true <;> simp [List.takeWhile, h, ih]
+
+/-- the head of what `dropWhile` leaves fails the test -/
+theorem dropWhile_head {α} (p : α → Bool) (l : List α) (a : α) (r : List α) (h : l.dropWhile p = a :: r) : p a = false := by
+  induction l with
+  | nil => simp at h
+  | cons b t ih =>
+    by_cases hb : p b = true
+    · simp [List.dropWhile, hb] at h; exact ih h
+    · simp [List.dropWhile, hb] at h
+      obtain ⟨rfl, _⟩ := h
+      simpa using hb
+
+/-- **`decode_splits`**: an accepted reference that is not "INV…" is the concatenation of its four parts; the grid zone is 0–2 digits followed
+    by one letter; the block is empty or two letters; easting and northing are digit strings of equal length, empty when the block is; and the
+    parts are maximal (the byte after the leading digits is a letter, the one after the letters is not) -/
+theorem decode_splits (s : List Nat) (p : Parts) (h : decode s = .ok p)
+    (hinv : (decide (s.length ≥ 3) && (s.take 3).map upper == [73, 78, 86]) = false) :
+    s = p.gridzone ++ p.block ++ p.easting ++ p.northing ∧
+    (∃ d a, p.gridzone = d ++ [a] ∧ d.length ≤ 2 ∧ d.all (inSet digits) = true ∧ inSet alpha a = true) ∧
+    (p.block.length = 0 ∨ p.block.length = 2) ∧ p.block.all (inSet alpha) = true ∧
+    p.easting.length = p.northing.length ∧ p.easting.all (inSet digits) = true ∧ p.northing.all (inSet digits) = true ∧
+    (p.block = [] → p.easting = [] ∧ p.northing = []) := by
+  unfold decode at h
+  rw [hinv] at h
+  simp only [Bool.false_eq_true, if_false] at h
+  have hsplit := List.takeWhile_append_dropWhile (p := inSet digits) (l := s)
+  cases hr : s.dropWhile (inSet digits) with
+  | nil => rw [hr] at h; cases h
+  | cons a r =>
+    rw [hr] at h hsplit
+    simp only at h
+    split_ifs at h with c1 c2 c3 c4 c5 c6
+    cases h
+    have hr2 := List.takeWhile_append_dropWhile (p := inSet alpha) (l := r)
+    have hal : (r.takeWhile (inSet alpha)).all (inSet alpha) = true := takeWhile_all _ _
+    generalize r.takeWhile (inSet alpha) = al at *
+    generalize r.dropWhile (inSet alpha) = t at *
+    dsimp only
+    have tall : t.all (inSet digits) = true := by simpa using c5
+    have teven : t.length % 2 = 0 := by omega
+    have tsplit : t = t.take (t.length / 2) ++ t.drop (t.length / 2) := (List.take_append_drop _ _).symm
+    refine ⟨?_, ⟨_, a, rfl, by simpa using c1, takeWhile_all _ _, by simpa using c2⟩, (by by_cases hh : (al.length = 0 ∨ al.length = 2); exact hh; exact absurd (by simp only [hh, decide_false, Bool.not_false]) c3), hal, ?_, ?_, ?_, ?_⟩
+    · calc s = s.takeWhile (inSet digits) ++ a :: r := hsplit.symm
+        _ = s.takeWhile (inSet digits) ++ a :: (al ++ t) := by rw [hr2]
+        _ = _ := by simp only [List.append_assoc, List.cons_append, List.nil_append, List.take_append_drop]
+    · simp only [List.length_take, List.length_drop]; omega
+    · rw [List.all_eq_true] at tall ⊢; intro x hx; exact tall x (List.mem_of_mem_take hx)
+    · rw [List.all_eq_true] at tall ⊢; intro x hx; exact tall x (List.mem_of_mem_drop hx)
+    · intro hb
+      have : al.length = 0 := by rw [hb]; rfl
+      have ht0 : t = [] := by
+        cases t with
+        | nil => rfl
+        | cons x xs => exact absurd ⟨this, by simp⟩ c4
+      rw [ht0]; simp
+
+
+theorem alpha_not_digit (c : Nat) (h : inSet alpha c = true) : inSet digits c = false := by
+  cases hd : inSet digits c with
+  | false => rfl
+  | true => rw [digit_not_alpha c hd] at h; cases h
+
+/-- `takeWhile` / `dropWhile` cut a list exactly where a run of passing elements is followed by nothing or by a failing one -/
+theorem takeWhile_dropWhile_append {α} (p : α → Bool) (l r : List α) (hl : l.all p = true) (hr : ∀ x ∈ r.head?, p x = false) :
+    (l ++ r).takeWhile p = l ∧ (l ++ r).dropWhile p = r := by
+  induction l with
+  | nil =>
+    cases r with
+    | nil => exact ⟨rfl, rfl⟩
+    | cons x xs =>
+      have hx : p x = false := hr x (by simp)
+      simp [hx]
+  | cons b t ih =>
+    simp only [List.all_cons, Bool.and_eq_true] at hl
+    obtain ⟨h1, h2⟩ := ih hl.2
+    simp [hl.1, h1, h2]
+
+/-- **`decode_complete`**: every byte string of the documented shape — 0–2 digits, a letter, nothing or two more letters and then two digit
+    strings of equal length — is accepted and split into exactly those parts (I and O are not letters; a string beginning "INV" is the
+    invalid marker instead) -/
+theorem decode_complete (d : List Nat) (a : Nat) (blk e n : List Nat)
+    (hd : d.length ≤ 2) (hda : d.all (inSet digits) = true) (ha : inSet alpha a = true)
+    (hb : blk.length = 0 ∨ blk.length = 2) (hba : blk.all (inSet alpha) = true)
+    (hen : e.length = n.length) (he : e.all (inSet digits) = true) (hn : n.all (inSet digits) = true)
+    (hbe : blk = [] → e = [] ∧ n = [])
+    (hinv : (decide ((d ++ [a] ++ blk ++ e ++ n).length ≥ 3) && ((d ++ [a] ++ blk ++ e ++ n).take 3).map upper == [73, 78, 86]) = false) :
+    decode (d ++ [a] ++ blk ++ e ++ n) = .ok ⟨d ++ [a], blk, e, n⟩ := by
+  unfold decode
+  rw [hinv]
+  simp only [Bool.false_eq_true, if_false]
+  have e1 : d ++ [a] ++ blk ++ e ++ n = d ++ (a :: (blk ++ (e ++ n))) := by simp [List.append_assoc]
+  rw [e1]
+  obtain ⟨t1, t2⟩ := takeWhile_dropWhile_append (inSet digits) d (a :: (blk ++ (e ++ n))) hda
+    (by intro x hx; simp at hx; subst hx; exact alpha_not_digit _ ha)
+  rw [t1, t2]
+  have hen' : ∀ x ∈ (e ++ n).head?, inSet alpha x = false := by
+    intro x hx
+    have hall : (e ++ n).all (inSet digits) = true := by rw [List.all_append, he, hn]; rfl
+    have hm : x ∈ e ++ n := List.mem_of_mem_head? hx
+    rw [List.all_eq_true] at hall
+    exact digit_not_alpha x (hall x hm)
+  obtain ⟨u1, u2⟩ := takeWhile_dropWhile_append (inSet alpha) blk (e ++ n) hba hen'
+  simp only
+  rw [u1, u2]
+  have c1 : (!decide (d.length ≤ 2)) = false := by simp [hd]
+  have c2 : (!inSet alpha a) = false := by simp [ha]
+  have c3 : (!decide (blk.length = 0 ∨ blk.length = 2)) = false := by simp only [hb, decide_true, Bool.not_true]
+  have c4 : ¬ (blk.length = 0 ∧ e ++ n ≠ []) := by
+    rintro ⟨h0, hne⟩
+    have : blk = [] := List.eq_nil_of_length_eq_zero h0
+    obtain ⟨h1, h2⟩ := hbe this
+    rw [h1, h2] at hne; exact hne rfl
+  have c5 : (!(e ++ n).all (inSet digits)) = false := by rw [List.all_append, he, hn]; rfl
+  have c6 : ¬ ((e ++ n).length % 2 = 1) := by rw [List.length_append]; omega
+  have half : (e ++ n).length / 2 = e.length := by rw [List.length_append]; omega
+  rw [c1, c2, c3, c5]
+  simp only [Bool.false_eq_true, if_false, c4, c6, half]
+  rw [List.take_left' rfl, List.drop_left' rfl]
+
+
+/-! ### `Decode` on what `Forward` writes: grid zone = zone digits + band letter, block = column and row letters, then the two digit groups -/
+
+theorem digit_inSet : ∀ k < 10, inSet digits (chr digits k).toNat = true := by decide
+theorem latband_alpha : ∀ k < 20, inSet alpha (chr latband k).toNat = true := by decide
+theorem utmcols_alpha : ∀ k < 3, ∀ i < 8, inSet alpha (chr (utmcols.getD k []) i).toNat = true := by decide
+theorem utmrow_alpha : ∀ i < 20, inSet alpha (chr utmrow i).toNat = true := by decide
+theorem upsband_alpha : ∀ k < 4, inSet alpha (chr upsband k).toNat = true := by decide
+theorem upscols_alpha : ∀ k < 4, ∀ i < (upscols.getD k []).length, inSet alpha (chr (upscols.getD k []) i).toNat = true := by decide
+theorem upsrows_alpha : ∀ k < 2, ∀ i < (upsrows.getD k []).length, inSet alpha (chr (upsrows.getD k []) i).toNat = true := by decide
+
+theorem digitsW_inSet (w n : Nat) : (toBytes (digitsW digits 10 w n)).all (inSet digits) = true := by
+  rw [List.all_eq_true]
+  intro c hc
+  unfold toBytes at hc
+  rw [List.mem_map] at hc
+  obtain ⟨ch, hch, rfl⟩ := hc
+  obtain ⟨k, hk, rfl⟩ := digitsW_mem digits 10 (by decide) w n ch hch
+  exact digit_inSet k hk
+
+/-- **UTM**: `Decode` of the string `Forward` writes returns zone digits + band letter, the two block letters and the digit groups -/
+theorem decode_forward_utm (zone : Int) (hz : 1 ≤ zone ∧ zone ≤ 60) (ix iy : Int) (hiy : 0 ≤ iy) (iband : Int) (hib : -10 ≤ iband ∧ iband < 10)
+    (prec : Nat) (hxh : 1 ≤ ix / 100000000000 ∧ ix / 100000000000 ≤ 8) :
+    decode (toBytes (utmString zone ix iy iband prec)) =
+      .ok ⟨toBytes ((utmString zone ix iy iband prec).take 3), toBytes (((utmString zone ix iy iband prec).drop 3).take 2),
+           toBytes (digitsW digits 10 prec ((ix - 100000000000 * (ix / 100000000000)) / 10 ^ (11 - prec)).toNat),
+           toBytes (digitsW digits 10 prec ((iy - 100000000000 * (iy / 100000000000)) / 10 ^ (11 - prec)).toNat)⟩ := by
+  obtain ⟨k1, k2, kcol, _, _, _⟩ := zone_facts zone hz
+  obtain ⟨kbd, _, _⟩ := band_facts iband hib
+  obtain ⟨kc8, _⟩ := col_facts (ix / 100000000000) hxh
+  have yh0 : 0 ≤ iy / 100000000000 := Int.ediv_nonneg hiy (by omega)
+  obtain ⟨kr20, _⟩ := row_facts (iy / 100000000000) zone yh0
+  generalize hdx : (digitsW digits 10 prec ((ix - 100000000000 * (ix / 100000000000)) / 10 ^ (11 - prec)).toNat) = dx
+  generalize hdy : (digitsW digits 10 prec ((iy - 100000000000 * (iy / 100000000000)) / 10 ^ (11 - prec)).toNat) = dy
+  have hdxs : (toBytes dx).all (inSet digits) = true := by rw [← hdx]; exact digitsW_inSet _ _
+  have hdys : (toBytes dy).all (inSet digits) = true := by rw [← hdy]; exact digitsW_inSet _ _
+  have lx : (toBytes dx).length = prec := by rw [← hdx]; simp [toBytes, digitsW_length]
+  have ly : (toBytes dy).length = prec := by rw [← hdy]; simp [toBytes, digitsW_length]
+  have hS : toBytes (utmString zone ix iy iband prec) =
+      [(chr digits (zone / 10).toNat).toNat, (chr digits (zone % 10).toNat).toNat] ++ [(chr latband (10 + iband).toNat).toNat] ++
+      [(chr (utmcols.getD ((zone - 1) % 3).toNat []) (ix / 100000000000 - 1).toNat).toNat,
+       (chr utmrow ((iy / 100000000000 + (if (zone - 1) % 2 = 1 then 5 else 0)) % 20).toNat).toNat] ++ toBytes dx ++ toBytes dy := by
+    simp only [utmString, toBytes, List.map_append, List.map_cons, List.cons_append, List.nil_append, hdx, hdy]
+  have h3 : toBytes ((utmString zone ix iy iband prec).take 3) =
+      [(chr digits (zone / 10).toNat).toNat, (chr digits (zone % 10).toNat).toNat] ++ [(chr latband (10 + iband).toNat).toNat] := by
+    simp [utmString, toBytes]
+  have h2 : toBytes (((utmString zone ix iy iband prec).drop 3).take 2) =
+      [(chr (utmcols.getD ((zone - 1) % 3).toNat []) (ix / 100000000000 - 1).toNat).toNat,
+       (chr utmrow ((iy / 100000000000 + (if (zone - 1) % 2 = 1 then 5 else 0)) % 20).toNat).toNat] := by
+    simp [utmString, toBytes]
+  rw [hS, h3, h2]
+  refine decode_complete _ _ _ _ _ (by simp) ?_ (latband_alpha _ kbd) (Or.inr rfl) ?_ (by rw [lx, ly]) hdxs hdys (by intro h; cases h) ?_
+  · show (inSet digits _ && (inSet digits _ && true)) = true
+    rw [digit_inSet _ k1, digit_inSet _ k2]; rfl
+  · show (inSet alpha _ && (inSet alpha _ && true)) = true
+    rw [utmcols_alpha _ kcol _ kc8, utmrow_alpha _ kr20]; rfl
+  · have := digit_not_I _ k1
+    simp [this]
+
+/-- **UPS** likewise: the grid zone is the single letter A, B, Y or Z -/
+theorem decode_forward_ups (northp : Bool) (ix iy : Int) (prec : Nat)
+    (hN : northp = true → (13 ≤ ix / 100000000000 ∧ ix / 100000000000 < 27) ∧ (13 ≤ iy / 100000000000 ∧ iy / 100000000000 < 27))
+    (hS : northp = false → (8 ≤ ix / 100000000000 ∧ ix / 100000000000 < 32) ∧ (8 ≤ iy / 100000000000 ∧ iy / 100000000000 < 32)) :
+    decode (toBytes (upsString northp ix iy prec)) =
+      .ok ⟨toBytes ((upsString northp ix iy prec).take 1), toBytes (((upsString northp ix iy prec).drop 1).take 2),
+           toBytes (digitsW digits 10 prec ((ix - 100000000000 * (ix / 100000000000)) / 10 ^ (11 - prec)).toNat),
+           toBytes (digitsW digits 10 prec ((iy - 100000000000 * (iy / 100000000000)) / 10 ^ (11 - prec)).toNat)⟩ := by
+  generalize hdx : (digitsW digits 10 prec ((ix - 100000000000 * (ix / 100000000000)) / 10 ^ (11 - prec)).toNat) = dx
+  generalize hdy : (digitsW digits 10 prec ((iy - 100000000000 * (iy / 100000000000)) / 10 ^ (11 - prec)).toNat) = dy
+  have hdxs : (toBytes dx).all (inSet digits) = true := by rw [← hdx]; exact digitsW_inSet _ _
+  have hdys : (toBytes dy).all (inSet digits) = true := by rw [← hdy]; exact digitsW_inSet _ _
+  have lx : (toBytes dx).length = prec := by rw [← hdx]; simp [toBytes, digitsW_length]
+  have ly : (toBytes dy).length = prec := by rw [← hdy]; simp [toBytes, digitsW_length]
+  obtain ⟨s0, s1, s2, s3, s4, s5⟩ := ups_table_sizes
+  obtain ⟨xh, hxh⟩ : ∃ xh, xh = ix / 100000000000 := ⟨_, rfl⟩
+  obtain ⟨yh, hyh⟩ : ∃ yh, yh = iy / 100000000000 := ⟨_, rfl⟩
+  rw [← hxh] at hdx
+  rw [← hyh] at hdy
+  have main : ∀ (ib : Nat) (hib : ib < 4) (cx cy : Int) (rr : Nat) (hrr : rr < 2)
+      (hcx : (xh - cx).toNat < (upscols.getD ib []).length) (hcy : (yh - cy).toNat < (upsrows.getD rr []).length),
+      decode ([(chr upsband ib).toNat] ++ [(chr (upscols.getD ib []) (xh - cx).toNat).toNat, (chr (upsrows.getD rr []) (yh - cy).toNat).toNat] ++
+          toBytes dx ++ toBytes dy) =
+        .ok ⟨[(chr upsband ib).toNat], [(chr (upscols.getD ib []) (xh - cx).toNat).toNat, (chr (upsrows.getD rr []) (yh - cy).toNat).toNat],
+          toBytes dx, toBytes dy⟩ := by
+    intro ib hib cx cy rr hrr hcx hcy
+    have := decode_complete [] (chr upsband ib).toNat
+      [(chr (upscols.getD ib []) (xh - cx).toNat).toNat, (chr (upsrows.getD rr []) (yh - cy).toNat).toNat] (toBytes dx) (toBytes dy)
+      (by simp) (by simp) (upsband_alpha _ hib) (Or.inr rfl) (by show (inSet alpha _ && (inSet alpha _ && true)) = true; rw [upscols_alpha _ hib _ hcx, upsrows_alpha _ hrr _ hcy]; rfl)
+      (by rw [lx, ly]) hdxs hdys (by intro h; cases h)
+      (by have := upsband_not_I _ hib; simp [this])
+    simpa using this
+  unfold upsString
+  simp only [← hxh, ← hyh, hdx, hdy]
+  cases northp
+  · obtain ⟨⟨x1, x2⟩, y1, y2⟩ := hS rfl
+    by_cases he : xh ≥ 20
+    · simp only [he, decide_true, Bool.false_eq_true, if_false, if_true, Nat.zero_add]
+      have := main 1 (by omega) 20 8 0 (by omega) (by rw [s1]; omega) (by rw [s4]; omega)
+      simpa [toBytes, hdx, hdy] using this
+    · simp only [he, decide_false, Bool.false_eq_true, if_false, Nat.add_zero]
+      have := main 0 (by omega) 8 8 0 (by omega) (by rw [s0]; omega) (by rw [s4]; omega)
+      simpa [toBytes, hdx, hdy] using this
+  · obtain ⟨⟨x1, x2⟩, y1, y2⟩ := hN rfl
+    by_cases he : xh ≥ 20
+    · simp only [he, decide_true, if_true, Nat.reduceAdd]
+      have := main 3 (by omega) 20 13 1 (by omega) (by rw [s3]; omega) (by rw [s5]; omega)
+      simpa [toBytes, hdx, hdy] using this
+    · simp only [he, decide_false, Bool.false_eq_true, if_false, if_true, Nat.add_zero]
+      have := main 2 (by omega) 13 13 1 (by omega) (by rw [s2]; omega) (by rw [s5]; omega)
+      simpa [toBytes, hdx, hdy] using this
+
+
+/-! ### prefix law and re-encode law at the level of the strings (UTM and UPS) -/
+
+/-- the digit group `Forward` writes for a coordinate `ix = ⌊10⁶ x⌋` at precision `prec` -/
+def digitGroup (ix : Int) (prec : Nat) : List Char :=
+  digitsW digits 10 prec ((ix - 100000000000 * (ix / 100000000000)) / 10 ^ (11 - prec)).toNat
+
+theorem utmString_parts (zone ix iy iband : Int) (prec : Nat) :
+    utmString zone ix iy iband prec = (utmString zone ix iy iband 0) ++ digitGroup ix prec ++ digitGroup iy prec := by
+  simp [utmString, digitGroup, digitsW]
+
+theorem upsString_parts (northp : Bool) (ix iy : Int) (prec : Nat) :
+    upsString northp ix iy prec = (upsString northp ix iy 0) ++ digitGroup ix prec ++ digitGroup iy prec := by
+  simp [upsString, digitGroup, digitsW]
+
+/-- the digit group at precision `p` is a prefix of the one at `p + 1` (truncation, not rounding) -/
+theorem digitGroup_prefix (ix : Int) (p : Nat) (hp : p < 11) : digitGroup ix p <+: digitGroup ix (p + 1) := by
+  unfold digitGroup
+  have r0 : 0 ≤ ix - 100000000000 * (ix / 100000000000) := by omega
+  obtain ⟨a, ha⟩ := Int.eq_ofNat_of_zero_le r0
+  rw [ha]
+  have e : ∀ k : Nat, ((a : Int) / 10 ^ k).toNat = a / 10 ^ k := by
+    intro k
+    have : ((a : Int) / 10 ^ k) = ((a / 10 ^ k : Nat) : Int) := by push_cast; rfl
+    rw [this, Int.toNat_natCast]
+  rw [e, e]
+  exact digits_prefix a p hp
+
+/-- **prefix law, UTM and UPS**: going from precision `p` to `p + 1` keeps the zone digits and the three letters and extends each digit
+    group by one digit -/
+theorem prefix_law_utm (zone ix iy iband : Int) (p : Nat) (hp : p < 11) :
+    ∃ head, utmString zone ix iy iband p = head ++ digitGroup ix p ++ digitGroup iy p ∧
+      utmString zone ix iy iband (p + 1) = head ++ digitGroup ix (p + 1) ++ digitGroup iy (p + 1) ∧ head.length = 5 ∧
+      digitGroup ix p <+: digitGroup ix (p + 1) ∧ digitGroup iy p <+: digitGroup iy (p + 1) :=
+  ⟨utmString zone ix iy iband 0, utmString_parts _ _ _ _ _, utmString_parts _ _ _ _ _, by simp [utmString, digitsW],
+    digitGroup_prefix ix p hp, digitGroup_prefix iy p hp⟩
+
+theorem prefix_law_ups (northp : Bool) (ix iy : Int) (p : Nat) (hp : p < 11) :
+    ∃ head, upsString northp ix iy p = head ++ digitGroup ix p ++ digitGroup iy p ∧
+      upsString northp ix iy (p + 1) = head ++ digitGroup ix (p + 1) ++ digitGroup iy (p + 1) ∧ head.length = 3 ∧
+      digitGroup ix p <+: digitGroup ix (p + 1) ∧ digitGroup iy p <+: digitGroup iy (p + 1) :=
+  ⟨upsString northp ix iy 0, upsString_parts _ _ _ _, upsString_parts _ _ _ _, by simp [upsString, digitsW],
+    digitGroup_prefix ix p hp, digitGroup_prefix iy p hp⟩
+
+/-- the centre (in units of 10⁻⁶ m, rounded down: what `⌊10⁶ x⌋` gives for the centre `Reverse` returns) of the square of `ix` at precision `prec` -/
+def centre (ix : Int) (prec : Nat) : Int := (ix / 10 ^ (11 - prec)) * 10 ^ (11 - prec) + 10 ^ (11 - prec) / 2
+
+theorem centre_same_square (ix : Int) (hix : 0 ≤ ix) (prec : Nat) (hp : prec ≤ 11) :
+    0 ≤ centre ix prec ∧ centre ix prec / 100000000000 = ix / 100000000000 ∧
+    (centre ix prec - 100000000000 * (centre ix prec / 100000000000)) / 10 ^ (11 - prec) =
+      (ix - 100000000000 * (ix / 100000000000)) / 10 ^ (11 - prec) := by
+  unfold centre
+  have hc : prec = 0 ∨ prec = 1 ∨ prec = 2 ∨ prec = 3 ∨ prec = 4 ∨ prec = 5 ∨ prec = 6 ∨ prec = 7 ∨ prec = 8 ∨ prec = 9 ∨ prec = 10 ∨ prec = 11 := by omega
+  rcases hc with rfl | rfl | rfl | rfl | rfl | rfl | rfl | rfl | rfl | rfl | rfl | rfl <;>
+    simp only [Nat.sub_zero, Nat.reduceSub, Int.reducePow, Nat.sub_self, Int.pow_zero] <;> omega
+
+/-- **re-encode law, UTM**: the centre of the square of (ix, iy) at precision `prec` lies in the same 100 km tile and has the same digit groups, so
+    `Forward` of it — with any latitude band `iband'` that passes `Forward`'s own row-consistency test for that tile — writes the same string
+    except for the band letter, which is that of `iband'` (the same string when the band is the same) -/
+theorem reencode_utm (zone : Int) (hz : 1 ≤ zone ∧ zone ≤ 60) (northp : Bool) (ix iy : Int) (hix : 0 ≤ ix) (hiy : 0 ≤ iy)
+    (iband iband' : Int) (prec : Nat) (hprec : prec ≤ 11)
+    (hrow' : utmRow iband' (ix / 100000000000 - 1) (iy / 100000000000 % 20) = iy / 100000000000 - (if northp then 0 else 100)) :
+    encodeInt zone northp (centre ix prec) (centre iy prec) iband' prec = .ok (utmString zone ix iy iband' prec) ∧
+    utmString zone ix iy iband' prec = (utmString zone ix iy iband prec).set 2 (chr latband (10 + iband').toNat) ∧
+    (iband' = iband → utmString zone ix iy iband' prec = utmString zone ix iy iband prec) := by
+  obtain ⟨cx0, cx1, cx2⟩ := centre_same_square ix hix prec hprec
+  obtain ⟨cy0, cy1, cy2⟩ := centre_same_square iy hiy prec hprec
+  have cx3 := cx2; rw [cx1] at cx3
+  have cy3 := cy2; rw [cy1] at cy3
+  refine ⟨?_, ?_, fun h => by rw [h]⟩
+  · have h := encodeInt_utm zone hz northp (centre ix prec) (centre iy prec) cx0 cy0 iband' prec hprec (by rw [cx1, cy1]; exact hrow')
+    rw [h]
+    unfold utmString
+    simp only [cx1, cy1, cx3, cy3]
+  · simp [utmString]
+
+/-- **re-encode law, UPS**: `Forward` of the centre of the square writes the same string (there is no band letter to change) -/
+theorem reencode_ups (northp : Bool) (ix iy : Int) (hix : 0 ≤ ix) (hiy : 0 ≤ iy) (iband : Int) (prec : Nat) (hprec : prec ≤ 11) :
+    encodeInt 0 northp (centre ix prec) (centre iy prec) iband prec = .ok (upsString northp ix iy prec) := by
+  obtain ⟨cx0, cx1, cx2⟩ := centre_same_square ix hix prec hprec
+  obtain ⟨cy0, cy1, cy2⟩ := centre_same_square iy hiy prec hprec
+  have cx3 := cx2; rw [cx1] at cx3
+  have cy3 := cy2; rw [cy1] at cy3
+  rw [encodeInt_ups northp (centre ix prec) (centre iy prec) cx0 cy0 iband prec hprec]
+  unfold upsString
+  simp only [cx1, cy1, cx3, cy3]
+
+/-- what `Reverse` returns for the string is that centre: `(2·x1 + 1)/(2·10^prec)` tiles with `x1 = ⌊ix / 10^(11−prec)⌋` is `centre` up to the
+    half micrometre lost at precision 11 (integer level of `reverse_forward_*` with `centerp`) -/
+theorem centre_is_reverse (ix : Int) (hix : 0 ≤ ix) (prec : Nat) (hprec : prec ≤ 11) :
+    let x1 := (ix / 100000000000) * 10 ^ prec + (ix - 100000000000 * (ix / 100000000000)) / 10 ^ (11 - prec)
+    centre ix prec = (100000000000 * (2 * x1 + 1)) / (2 * 10 ^ prec) := by
+  unfold centre
+  have hc : prec = 0 ∨ prec = 1 ∨ prec = 2 ∨ prec = 3 ∨ prec = 4 ∨ prec = 5 ∨ prec = 6 ∨ prec = 7 ∨ prec = 8 ∨ prec = 9 ∨ prec = 10 ∨ prec = 11 := by omega
+  rcases hc with rfl | rfl | rfl | rfl | rfl | rfl | rfl | rfl | rfl | rfl | rfl | rfl <;>
+    simp only [Nat.sub_zero, Nat.reduceSub, Int.reducePow, Nat.sub_self, Int.pow_zero] <;> omega
+
+example : centre 444500000000 2 = 444500000000 ∧ centre 444123456789 2 = 444500000000 ∧ centre 444123456789 11 = 444123456789 := by decide
+
+
+open GeoVerif.Props.C04 (fl_eq_floor val_ofInt ofInt_fin lt_ofInt_fin)
+
+/-! ### `CheckCoords`: what is accepted, and the hemisphere folding -/
+
+/-- **accepted ⇔** both coordinates are below 2³¹ in magnitude and each tile index lies in its half-open range or the coordinate sits exactly
+    on the excluded upper end (tables re-extracted from MGRS.cpp; `ix = ⌊x / 10⁵⌋` in binary64) -/
+theorem checkCoords_accept_iff (utmp northp : Bool) (x y : F64) :
+    (∃ c, checkCoords utmp northp x y = .ok c) ↔
+      (F64.lt (F64.abs x) (F64.ofInt 2147483647) && F64.lt (F64.abs y) (F64.ofInt 2147483647)) = true ∧
+      (∃ x1, clampTile "easting out of range" (UTMUPS.fl (x / ftile)) (mgrs_tbl_mineasting.getD (UTMUPS.ind utmp northp) 0)
+              (mgrs_tbl_maxeasting.getD (UTMUPS.ind utmp northp) 0) x = .ok x1) ∧
+      (∃ y1, clampTile "northing out of range" (UTMUPS.fl (y / ftile)) (mgrs_tbl_minnorthing.getD (UTMUPS.ind utmp northp) 0)
+              (mgrs_tbl_maxnorthing.getD (UTMUPS.ind utmp northp) 0)
+              (if F64.lt y 0 && UTMUPS.fl (y / ftile) == 0 then 0 else y) = .ok y1) := by
+  unfold checkCoords
+  by_cases hb : (F64.lt (F64.abs x) (F64.ofInt 2147483647) && F64.lt (F64.abs y) (F64.ofInt 2147483647)) = true
+  · simp only [hb, Bool.not_true, Bool.false_eq_true, if_false, true_and]
+    cases hx : clampTile "easting out of range" (UTMUPS.fl (x / ftile)) (mgrs_tbl_mineasting.getD (UTMUPS.ind utmp northp) 0)
+        (mgrs_tbl_maxeasting.getD (UTMUPS.ind utmp northp) 0) x with
+    | error e => simp [bind, Except.bind]
+    | ok x1 =>
+      cases hy : clampTile "northing out of range" (UTMUPS.fl (y / ftile)) (mgrs_tbl_minnorthing.getD (UTMUPS.ind utmp northp) 0)
+          (mgrs_tbl_maxnorthing.getD (UTMUPS.ind utmp northp) 0) (if F64.lt y 0 && UTMUPS.fl (y / ftile) == 0 then 0 else y) with
+      | error e => simp [bind, Except.bind]
+      | ok y1 => cases utmp <;> simp [bind, Except.bind, pure, Except.pure]
+  · simp [hb, bind, Except.bind, throw, throwThe, MonadExceptOf.throw]
+
+
+/-! ### equivalent labelling across the equator, on the binary64 model -/
+
+/-- a representable value is its own rounding -/
+theorem isRN_repr (g s : ℤ) (hg : |g| ≤ 2 ^ 53) (hs : -1074 ≤ s) :
+    IsRN 53 (-1074) ((g:ℚ) * (2:ℚ) ^ s) ((g:ℚ) * (2:ℚ) ^ s) := by
+  have h1 := roundTo_isRN 53 (-1074) ⟨g, s⟩
+  have e := IsRN.eq_of_fits h1 g s hg hs rfl
+  rw [e] at h1; exact h1
+
+theorem ftile_fin : ftile = F64.fin false 100000 0 := rfl
+theorem ftile_val : (F64.fin false 100000 0).val = 100000 := by rw [F64.val_fin]; norm_num
+
+/-- the row of a northing in `[−9·10⁶, 0)` whose quotient by the tile size does not underflow is one of −90 … −1 -/
+theorem north_row (s : Bool) (m : ℕ) (e : ℤ) (h1 : -9000000 ≤ (F64.fin s m e).val) (h2 : (F64.fin s m e).val < 0)
+    (h3 : UTMUPS.fl (F64.fin s m e / ftile) ≠ 0) :
+    -90 ≤ UTMUPS.fl (F64.fin s m e / ftile) ∧ UTMUPS.fl (F64.fin s m e / ftile) < 0 := by
+  rw [ftile_fin] at h3 ⊢
+  obtain ⟨r, hr, hfin⟩ := F64.div_fin s false m 100000 e 0 (by decide)
+  rw [ftile_val] at hr
+  set z := (F64.fin s m e).val / 100000 with hz
+  have z1 : (-90 : ℚ) ≤ z := by rw [hz, le_div_iff₀ (by norm_num)]; linarith
+  have z2 : z ≤ 0 := by rw [hz]; exact div_nonpos_of_nonpos_of_nonneg (le_of_lt h2) (by norm_num)
+  have hzabs : |z| ≤ 2 ^ 52 := by rw [abs_le]; constructor <;> norm_num <;> linarith
+  have r1 := hr.int_le (-90) (by norm_num) (by push_cast; exact z1)
+  have r2 := hr.le_int 0 (by norm_num) (by push_cast; exact z2)
+  push_cast at r1 r2
+  obtain ⟨_, hv⟩ := hfin (hr.lt_huge hzabs)
+  rw [fl_eq_floor, hv] at h3 ⊢
+  have f1 : (-90 : ℤ) ≤ ⌊r⌋ := by rw [Int.le_floor]; push_cast; exact r1
+  have f2 : ⌊r⌋ ≤ 0 := by
+    have : ⌊r⌋ < 1 := by rw [Int.floor_lt]; push_cast; linarith
+    omega
+  exact ⟨f1, lt_of_le_of_ne f2 h3⟩
+
+
+theorem shift_fin : F64.ofInt 10000000 = F64.fin false 10000000 0 := rfl
+theorem shift_val : (F64.fin false 10000000 0).val = 10000000 := by rw [F64.val_fin]; norm_num
+
+/-- the folded northing `y + 10⁷` (one rounding) is a finite double in `[10⁶, 10⁷]`, and if it is below `10⁷` it is at most the double before `10⁷` -/
+theorem folded_northing (s : Bool) (m : ℕ) (e : ℤ) (h1 : -9000000 ≤ (F64.fin s m e).val) (h2 : (F64.fin s m e).val < 0) :
+    ∃ s' m' e', F64.fin s m e + F64.ofInt 10000000 = F64.fin s' m' e' ∧ 1000000 ≤ (F64.fin s' m' e').val ∧ (F64.fin s' m' e').val ≤ 10000000 ∧
+      ((F64.fin s' m' e').val < 10000000 → (F64.fin s' m' e').val ≤ 10000000 - (2:ℚ) ^ (-29 : ℤ)) := by
+  rw [shift_fin]
+  obtain ⟨r, hr, hfin⟩ := F64.add_fin_isRN s false m 10000000 e 0
+  rw [shift_val] at hr
+  set z := (F64.fin s m e).val + 10000000 with hz
+  have z1 : (1000000 : ℚ) ≤ z := by rw [hz]; linarith
+  have z2 : z < 10000000 := by rw [hz]; linarith
+  have hzabs : |z| ≤ 2 ^ 52 := by rw [abs_le]; constructor <;> norm_num <;> linarith
+  have r1 := hr.int_le 1000000 (by norm_num) (by push_cast; exact z1)
+  have r2 := hr.le_int 10000000 (by norm_num) (by push_cast; exact le_of_lt z2)
+  push_cast at r1 r2
+  obtain ⟨hf, hv⟩ := hfin (hr.lt_huge hzabs)
+  -- the sum is a finite double
+  cases hsum : F64.fin s m e + F64.fin false 10000000 0 with
+  | nan => rw [hsum] at hf; cases hf
+  | inf b => rw [hsum] at hf; cases hf
+  | fin s' m' e' =>
+    rw [hsum] at hv
+    refine ⟨s', m', e', rfl, by rw [hv]; exact r1, by rw [hv]; exact r2, ?_⟩
+    rw [hv]
+    intro hlt
+    by_cases hbig : z ≤ 10000000 - (2:ℚ) ^ (-28 : ℤ)
+    · -- far enough below: monotonicity against the representable bound 10⁷ − 2⁻²⁸
+      have hrep := isRN_repr (10000000 * 2 ^ 28 - 1) (-28) (by norm_num) (by norm_num)
+      have e28 : (((10000000 * 2 ^ 28 - 1 : ℤ) : ℚ)) * (2:ℚ) ^ (-28 : ℤ) = 10000000 - (2:ℚ) ^ (-28 : ℤ) := by
+        push_cast; norm_num [zpow_neg]
+      rw [e28] at hrep
+      have := IsRN.mono (by norm_num) hr hrep hbig
+      have h2928 : (2:ℚ) ^ (-29 : ℤ) ≤ (2:ℚ) ^ (-28 : ℤ) := by
+        apply zpow_le_zpow_right₀ <;> norm_num
+      linarith
+    · -- within 2⁻²⁸ of 10⁷: the result lies on the grid 2⁻²⁹ of the binade [2²³, 2²⁴)
+      have hbig := not_le.mp hbig
+      have hz0 : z ≠ 0 := by linarith
+      obtain ⟨E, k, b1, b2, hk, _, _⟩ := hr.nz hz0
+      have hzpos : |z| = z := abs_of_pos (by linarith)
+      rw [hzpos] at b1 b2
+      have p28 : (2:ℚ) ^ (-28 : ℤ) ≤ 1 := by
+        have : (2:ℚ) ^ (-28 : ℤ) ≤ (2:ℚ) ^ (0 : ℤ) := by apply zpow_le_zpow_right₀ <;> norm_num
+        simpa using this
+      have hE1 : E ≤ 24 := by
+        have : (2:ℚ) ^ (E - 1) < (2:ℚ) ^ (24 : ℤ) := lt_of_le_of_lt b1 (by norm_num; linarith)
+        have := Dy.two_zpow_lt_iff.mp this; omega
+      have hE2 : 24 ≤ E := by
+        have : (2:ℚ) ^ (23 : ℤ) < (2:ℚ) ^ E := lt_of_lt_of_le (by norm_num; linarith) (le_of_lt b2)
+        have := Dy.two_zpow_lt_iff.mp this; omega
+      have hE : E = 24 := by omega
+      subst hE
+      have hg : max ((24:ℤ) - (53:ℕ)) (-1074) = -29 := by norm_num
+      rw [hg] at hk
+      -- r = k · 2⁻²⁹ < 10⁷ = (10⁷ · 2²⁹) · 2⁻²⁹
+      have hp : (0:ℚ) < (2:ℚ) ^ (-29 : ℤ) := by positivity
+      have e29 : (10000000 : ℚ) = ((10000000 * 2 ^ 29 : ℤ) : ℚ) * (2:ℚ) ^ (-29 : ℤ) := by
+        push_cast; norm_num [zpow_neg]
+      rw [hk, e29] at hlt
+      have hklt : k < 10000000 * 2 ^ 29 := by
+        have := lt_of_mul_lt_mul_right hlt (le_of_lt hp)
+        exact_mod_cast this
+      have hkle : (k:ℚ) ≤ ((10000000 * 2 ^ 29 - 1 : ℤ) : ℚ) := by exact_mod_cast (by omega : k ≤ 10000000 * 2 ^ 29 - 1)
+      rw [hk]
+      calc (k:ℚ) * (2:ℚ) ^ (-29 : ℤ) ≤ ((10000000 * 2 ^ 29 - 1 : ℤ) : ℚ) * (2:ℚ) ^ (-29 : ℤ) := by
+            exact mul_le_mul_of_nonneg_right hkle (le_of_lt hp)
+        _ = 10000000 - (2:ℚ) ^ (-29 : ℤ) := by
+            push_cast; norm_num [zpow_neg]
+
+
+/-- the row of a southern northing in `[10⁶, 10⁷]`: 100 exactly on the equator, 10 … 99 below the last double before it -/
+theorem south_row (s : Bool) (m : ℕ) (e : ℤ) (h1 : 1000000 ≤ (F64.fin s m e).val) (h2 : (F64.fin s m e).val ≤ 10000000) :
+    ((F64.fin s m e).val = 10000000 → UTMUPS.fl (F64.fin s m e / ftile) = 100) ∧
+    ((F64.fin s m e).val ≤ 10000000 - (2:ℚ) ^ (-29 : ℤ) → 10 ≤ UTMUPS.fl (F64.fin s m e / ftile) ∧ UTMUPS.fl (F64.fin s m e / ftile) < 100) := by
+  rw [ftile_fin]
+  obtain ⟨r, hr, hfin⟩ := F64.div_fin s false m 100000 e 0 (by decide)
+  rw [ftile_val] at hr
+  set z := (F64.fin s m e).val / 100000 with hz
+  have z1 : (10 : ℚ) ≤ z := by rw [hz, le_div_iff₀ (by norm_num)]; linarith
+  have z2 : z ≤ 100 := by rw [hz, div_le_iff₀ (by norm_num)]; linarith
+  have hzabs : |z| ≤ 2 ^ 52 := by rw [abs_le]; constructor <;> norm_num <;> linarith
+  have r1 := hr.int_le 10 (by norm_num) (by push_cast; exact z1)
+  have r2 := hr.le_int 100 (by norm_num) (by push_cast; exact z2)
+  push_cast at r1 r2
+  obtain ⟨_, hv⟩ := hfin (hr.lt_huge hzabs)
+  rw [fl_eq_floor, hv]
+  constructor
+  · intro heq
+    have hz100 : z = 100 := by rw [hz, heq]; norm_num
+    have r3 := hr.int_le 100 (by norm_num) (by push_cast; rw [hz100])
+    push_cast at r3
+    have : r = 100 := le_antisymm r2 r3
+    rw [this]; norm_num
+  · intro hle
+    have hz' : z ≤ 100 - (2:ℚ) ^ (-46 : ℤ) := by
+      rw [hz, div_le_iff₀ (by norm_num)]
+      have : (2:ℚ) ^ (-29 : ℤ) ≥ (2:ℚ) ^ (-46 : ℤ) * 100000 := by norm_num [zpow_neg]
+      linarith
+    have hrep := isRN_repr (100 * 2 ^ 46 - 1) (-46) (by norm_num) (by norm_num)
+    have e46 : (((100 * 2 ^ 46 - 1 : ℤ) : ℚ)) * (2:ℚ) ^ (-46 : ℤ) = 100 - (2:ℚ) ^ (-46 : ℤ) := by
+      push_cast; norm_num [zpow_neg]
+    rw [e46] at hrep
+    have r4 := IsRN.mono (by norm_num) hr hrep hz'
+    have hp : (0:ℚ) < (2:ℚ) ^ (-46 : ℤ) := by positivity
+    constructor
+    · rw [Int.le_floor]; push_cast; exact r1
+    · rw [Int.floor_lt]; push_cast; linarith
+
+/-- `x < N` and `x = N` for a finite double and an integer, in terms of the value -/
+theorem eq_ofInt_fin (n : ℤ) (s : Bool) (m : ℕ) (e : ℤ) : F64.eq (F64.fin s m e) (F64.ofInt n) = true ↔ (F64.fin s m e).val = n := by
+  rw [ofInt_fin]
+  have : F64.eq (F64.fin s m e) (F64.fin (decide (n < 0)) n.natAbs 0)
+      = Dy.eq (F64.fin s m e).toDy (F64.fin (decide (n < 0)) n.natAbs 0).toDy := rfl
+  rw [this, Dy.eq_iff, ← ofInt_fin]
+  have h := val_ofInt n
+  unfold F64.val at h
+  rw [h]; rfl
+
+theorem abs_lt_imax (s : Bool) (m : ℕ) (e : ℤ) (h : |(F64.fin s m e).val| < 2147483647) :
+    F64.lt (F64.abs (F64.fin s m e)) (F64.ofInt 2147483647) = true := by
+  show F64.lt (F64.fin false m e) (F64.ofInt 2147483647) = true
+  rw [lt_ofInt_fin]
+  have : (F64.fin false m e).val = |(F64.fin s m e).val| := by
+    rw [F64.val_fin, F64.val_fin]
+    have hp : (0:ℚ) ≤ (m:ℚ) * (2:ℚ) ^ e := by positivity
+    cases s
+    · simp only [Bool.false_eq_true, if_false]; rw [abs_of_nonneg hp]
+    · simp only [if_true, Bool.false_eq_true, if_false]; rw [neg_mul, abs_neg, abs_of_nonneg hp]
+  rw [this]; exact_mod_cast h
+
+/-- **`CheckCoords` does not depend on which hemisphere label carries a UTM northing across the equator**: for a "northern" northing
+    `y ∈ [−9·10⁶, 0)` (not so small that `y / 10⁵` underflows to zero) the call with the northern label and the call with the southern label and
+    northing `y + 10⁷` (the binary64 sum) return the same folded coordinates -/
+theorem checkCoords_labelling (x : F64) (s : Bool) (m : ℕ) (e : ℤ) (h1 : -9000000 ≤ (F64.fin s m e).val) (h2 : (F64.fin s m e).val < 0)
+    (h3 : UTMUPS.fl (F64.fin s m e / ftile) ≠ 0) :
+    checkCoords true true x (F64.fin s m e) = checkCoords true false x (F64.fin s m e + F64.ofInt 10000000) := by
+  obtain ⟨n1, n2⟩ := north_row s m e h1 h2 h3
+  obtain ⟨s', m', e', hsum, f1, f2, f3⟩ := folded_northing s m e h1 h2
+  obtain ⟨c1, c2⟩ := south_row s' m' e' f1 f2
+  rw [hsum]
+  have gy : F64.lt (F64.abs (F64.fin s m e)) (F64.ofInt 2147483647) = true :=
+    abs_lt_imax s m e (by rw [abs_lt]; constructor <;> linarith)
+  have gy' : F64.lt (F64.abs (F64.fin s' m' e')) (F64.ofInt 2147483647) = true :=
+    abs_lt_imax s' m' e' (by rw [abs_lt]; constructor <;> linarith)
+  have ylt : F64.lt (F64.fin s' m' e') 0 = false := by
+    have z : (0 : F64) = F64.ofInt 0 := rfl
+    rw [z, Bool.eq_false_iff, Ne, lt_ofInt_fin]; push_cast; linarith
+  have ne0 : (UTMUPS.fl (F64.fin s m e / ftile) == 0) = false := by simpa using h3
+  have tE : mgrs_tbl_mineasting.getD (UTMUPS.ind true true) 0 = mgrs_tbl_mineasting.getD (UTMUPS.ind true false) 0 ∧
+      mgrs_tbl_maxeasting.getD (UTMUPS.ind true true) 0 = mgrs_tbl_maxeasting.getD (UTMUPS.ind true false) 0 := by decide
+  have tN : mgrs_tbl_minnorthing.getD (UTMUPS.ind true true) 0 = -90 ∧ mgrs_tbl_maxnorthing.getD (UTMUPS.ind true true) 0 = 95 ∧
+      mgrs_tbl_minnorthing.getD (UTMUPS.ind true false) 0 = 10 ∧ mgrs_tbl_maxnorthing.getD (UTMUPS.ind true false) 0 = 195 := by decide
+  have hsh : F64.fin s m e + F64.ofInt mgrs_utmNshift = F64.fin s' m' e' := hsum
+  have hS : mgrs_maxutmSrow * tile = 10000000 := by decide
+  unfold checkCoords
+  simp only [gy, gy', Bool.and_true, ylt, ne0, Bool.and_false, Bool.false_and, Bool.false_eq_true, if_false, tE.1, tE.2, tN.1, tN.2.1, tN.2.2.1, tN.2.2.2,
+    if_true]
+  cases hx : clampTile "easting out of range" (UTMUPS.fl (x / ftile)) (mgrs_tbl_mineasting.getD (UTMUPS.ind true false) 0)
+      (mgrs_tbl_maxeasting.getD (UTMUPS.ind true false) 0) x with
+  | error er => cases hgx : F64.lt (F64.abs x) (F64.ofInt 2147483647) <;> simp [bind, Except.bind, throw, throwThe, MonadExceptOf.throw]
+  | ok x1 =>
+    cases hgx : F64.lt (F64.abs x) (F64.ofInt 2147483647)
+    · simp [bind, Except.bind, throw, throwThe, MonadExceptOf.throw]
+    · have k1 : clampTile "northing out of range" (UTMUPS.fl (F64.fin s m e / ftile)) (-90) 95 (F64.fin s m e) = .ok (F64.fin s m e) := by
+        unfold clampTile; rw [if_pos ⟨n1, by omega⟩]
+      by_cases heq : (F64.fin s' m' e').val = 10000000
+      · have r100 := c1 heq
+        have k2 : clampTile "northing out of range" 100 10 195 (F64.fin s' m' e') = .ok (F64.fin s' m' e') := by
+          unfold clampTile; rw [if_pos ⟨by omega, by omega⟩]
+        have hS' : (100 : ℤ) * tile = 10000000 := by decide
+        have eqt : F64.eq (F64.fin s' m' e') (F64.ofInt (100 * tile)) = true := by
+          rw [hS', eq_ofInt_fin]; exact_mod_cast heq
+        simp [bind, Except.bind, pure, Except.pure, k1, k2, foldNorthing, n2, mgrs_minutmNrow, hsh, eqt, r100, mgrs_maxutmSrow]
+      · have hlt : (F64.fin s' m' e').val < 10000000 := lt_of_le_of_ne f2 heq
+        obtain ⟨r10, r99⟩ := c2 (f3 hlt)
+        have k2 : clampTile "northing out of range" (UTMUPS.fl (F64.fin s' m' e' / ftile)) 10 195 (F64.fin s' m' e') = .ok (F64.fin s' m' e') := by
+          unfold clampTile; rw [if_pos ⟨by omega, by omega⟩]
+        have eqf : F64.eq (F64.fin s' m' e') (F64.ofInt (mgrs_maxutmSrow * tile)) = false := by
+          rw [hS, Bool.eq_false_iff, Ne, eq_ofInt_fin]; exact_mod_cast heq
+        have nge : ¬ (UTMUPS.fl (F64.fin s' m' e' / ftile) ≥ mgrs_maxutmSrow) := by show ¬ (_ ≥ (100:ℤ)); omega
+        simp [bind, Except.bind, pure, Except.pure, k1, k2, foldNorthing, n2, mgrs_minutmNrow, hsh, eqf, nge]
+
+
+/-- **equivalent labelling** (MGRS.hpp: "UTM northings can be continued across the equator"): on the binary64 model, for every UTM zone, easting,
+    latitude argument and precision, `Forward(zone, north, x, y, lat, prec)` with `−9·10⁶ ≤ y < 0` is `Forward(zone, south, x, y + 10⁷, lat, prec)`
+    — the same string or the same exception — where `y + 10⁷` is the binary64 sum (since fix d94b3ac also when that sum rounds to `10⁷`).
+    Excluded: `|y|` so small that `y / 10⁵` underflows to zero (below about 10⁻³¹⁸ m; the point is then taken to be on the equator, band N). -/
+theorem equivalent_labelling (zone : Int) (hz : zone ≠ 0) (x lat : F64) (prec : Int) (s : Bool) (m : ℕ) (e : ℤ)
+    (h1 : -9000000 ≤ (F64.fin s m e).val) (h2 : (F64.fin s m e).val < 0) (h3 : UTMUPS.fl (F64.fin s m e / ftile) ≠ 0) :
+    forwardLat zone true x (F64.fin s m e) lat prec = forwardLat zone false x (F64.fin s m e + F64.ofInt 10000000) lat prec := by
+  have hc := checkCoords_labelling x s m e h1 h2 h3
+  obtain ⟨s', m', e', hsum, _, _, _⟩ := folded_northing s m e h1 h2
+  unfold forwardLat
+  have n1 : (F64.fin s m e).isNaN = false := rfl
+  have n2 : (F64.fin s m e + F64.ofInt 10000000).isNaN = false := by rw [hsum]; rfl
+  have hu : decide (zone ≠ 0) = true := by simpa using hz
+  simp only [n1, n2, hu, hc]
+
+/-- the overload without a latitude argument: the same, whenever the cheap latitude estimates of the two labellings select the same latitude
+    (they are computed from `y` resp. `(y + 10⁷) − 10⁷`, which differ by the rounding of the sum) -/
+theorem equivalent_labelling_auto (zone : Int) (hz : zone > 0) (x : F64) (prec : Int) (k : Except MGRS.Err F64) (s : Bool) (m : ℕ) (e : ℤ)
+    (h1 : -9000000 ≤ (F64.fin s m e).val) (h2 : (F64.fin s m e).val < 0) (h3 : UTMUPS.fl (F64.fin s m e / ftile) ≠ 0)
+    (hl : latEstimate true (F64.fin s m e) = latEstimate false (F64.fin s m e + F64.ofInt 10000000)) :
+    forward zone true x (F64.fin s m e) prec k = forward zone false x (F64.fin s m e + F64.ofInt 10000000) prec k := by
+  unfold forward
+  simp only [hz, if_true, hl]
+  cases latEstimate false (F64.fin s m e + F64.ofInt 10000000) with
+  | some l => simp only [bind, Except.bind, pure, Except.pure]; exact equivalent_labelling zone (by omega) x l prec s m e h1 h2 h3
+  | none =>
+    cases k with
+    | error er => rfl
+    | ok l => simp only [bind, Except.bind]; exact equivalent_labelling zone (by omega) x l prec s m e h1 h2 h3
+
+/-- non-vacuity: y = −1234567.25 m (row −13) and y = −2⁻⁴⁰ m (the sum rounds to 10⁷) satisfy the hypotheses; zone 31, 500 km east, precision 5 -/
+example : (-9000000 : ℚ) ≤ (F64.fin true 4938269 (-2)).val ∧ (F64.fin true 4938269 (-2)).val < 0 := by
+  rw [F64.val_fin]; norm_num [zpow_neg]
+example : UTMUPS.fl (F64.fin true 4938269 (-2) / ftile) = -13 ∧ UTMUPS.fl (F64.fin true 1 (-40) / ftile) = -1 := by decide +kernel
+example : (match forwardLat 31 true (F64.ofInt 500000) (F64.fin true 1 (-40)) (F64.fin true 1 (-60)) 5,
+                 forwardLat 31 false (F64.ofInt 500000) (F64.fin true 1 (-40) + F64.ofInt 10000000) (F64.fin true 1 (-60)) 5 with
+    | .ok a, .ok b => a == b && a == "31MEV0000099999".toList | _, _ => false) = true := by decide +kernel
+
 
 end GeoVerif.Props.C05
